@@ -1,4 +1,4 @@
-import Pm.InterpRef
+import Pm.InterpSends
 /-! # C08 — the script interpreter does what the script says
 
 "For every action the bytes powerman sends to the device are precisely the script's send strings in program order with
@@ -11,7 +11,10 @@ argument."
 
 Part A (this section): one theorem per sentence, about the mirror of the corresponding `_process_*` function of
 `device.c` (`Pm/Dev2.lean`), for every device state, action, context, oracle and time.
-Part B/C (further down): the stack of execution contexts refines a loop-free reference program. -/
+Part B (further down): the stack of execution contexts refines a loop-free reference program — micro-step, run, and
+one whole pass of `_process_action` (`C08_refines_partial`: nesting depth ≤ 64, the limit of the mirror's inner loop,
+see `C08_refines_counterexample`).  Part C: what is sent until the action completes is the unrolled script's send
+texts in order. -/
 namespace Pm.Props.C08
 open Pm.Dev2
 
@@ -326,5 +329,185 @@ theorem C08_foreach_list (d : Dev) (a : Action) (e : ExecCtx) :
 /-- non-vacuity: three plugs, the middle one unmapped — `foreachnode` visits the first and the third -/
 example : visitFrom true [⟨[1], some [9]⟩, ⟨[2], none⟩, ⟨[3], some [8]⟩] 4 0 = [⟨[1], some [9]⟩, ⟨[3], some [8]⟩] := by
   decide
+
+/-! ## B  the context stack refines a loop-free reference
+
+The reference (`Pm/InterpSim.lean`): `unroll R dp script plugs` flattens a script into a list of operations `FOp` —
+every `foreach` replaced by one copy of its body per plug, every `ifon`/`ifoff` by a guarded block — and `fstep`
+executes such a list with a single program counter (`F.rem`, the rest of the program) and one flag (`F.inflight`: the
+first operation, a send or a delay, has been started).  `abs R dp stack` is the flat program a stack of `ExecCtx`
+stands for.  `R` = the script is a ranged one, `dp` = the plugs of the device. -/
+
+/-- **What the flat program is.**  Statement by statement: a send carries its final text (A1), a setplugstate its
+    script argument, `foreachplug` is the body once per plug of the list — the device's plugs, or in a ranged script the
+    plugs of the enclosing context, i.e. the targeted plugs — each copy with that one plug as its context; `foreachnode`
+    the same over the plugs mapped to a node; `ifon`/`ifoff` a guard on the node of the context's first plug. -/
+theorem C08_unroll (R : Bool) (dp : List Plug) (pl : Option (List Plug)) :
+    (∀ s r, unroll R dp (s :: r) pl = unrollStmt R dp s pl ++ unroll R dp r pl) ∧ unroll R dp [] pl = [] ∧
+    (∀ fmt, unrollStmt R dp (.send fmt) pl = [.send (sendText fmt pl)]) ∧
+    (∀ p, unrollStmt R dp (.expect p) pl = [.expect p]) ∧
+    (∀ us, unrollStmt R dp (.delay us) pl = [.delay us]) ∧
+    (∀ l pm sm is, unrollStmt R dp (.setplugstate l pm sm is) pl = [.setplugstate l pm sm is (ctxName pl)]) ∧
+    (∀ pm sm is, unrollStmt R dp (.setresult pm sm is) pl = [.setresult pm sm is]) ∧
+    (∀ b, unrollStmt R dp (.foreachplug b) pl =
+        (if R then pl.getD [] else dp).flatMap fun p => unroll R dp b (some [p])) ∧
+    (∀ b, unrollStmt R dp (.foreachnode b) pl =
+        ((if R then pl.getD [] else dp).filter fun p => p.node.isSome).flatMap fun p => unroll R dp b (some [p])) ∧
+    (∀ b, unrollStmt R dp (.ifon b) pl = [.guard true (ctxNode pl) (unroll R dp b (some (pl.getD [])))]) ∧
+    (∀ b, unrollStmt R dp (.ifoff b) pl = [.guard false (ctxNode pl) (unroll R dp b (some (pl.getD [])))]) := by
+  refine ⟨fun s r => unroll_cons R dp s r pl, unroll_nil R dp pl, ?_, ?_, ?_, ?_, ?_, ?_, ?_, ?_, ?_⟩
+  · intro fmt; simp [unrollStmt]
+  · intro p; simp [unrollStmt]
+  · intro us; simp [unrollStmt]
+  · intro l pm sm is; simp [unrollStmt]
+  · intro pm sm is; simp [unrollStmt]
+  · intro b; simp [unrollStmt, eachList, skipped, List.filter_true]
+  · intro b
+    simp only [unrollStmt, eachList, skipped, Bool.true_and]
+    congr 2; funext p; cases p.node <;> rfl
+  · intro b; simp [unrollStmt]
+  · intro b; simp [unrollStmt]
+
+/-- **One micro-step** (`mstep`: one `_process_stmt`, then the bookkeeping `_process_action` does with its answer) of a
+    well-formed configuration is either invisible to the reference — pushing a `foreach` body, popping a finished block,
+    iterator bookkeeping, returning from an `if`: no output, no change of device or oracle, and the stack denotes the
+    same program as before — or it is exactly one `fstep` of the reference on the program the stack denotes: same new
+    device state, oracle, output, action fields and outcome, and (unless the action failed or the daemon stopped) the
+    new stack denotes the reference's new program.  The configuration stays well-formed. -/
+theorem C08_micro_step (R : Bool) (dp : List Plug) (now : Time) (d : Dev) (a : Action) (o : Oracle)
+    (hne : a.exec ≠ []) (hinv : Inv R dp d a) :
+    Sim R dp now d a o (mstep now d a o) ∧
+    ((mstep now d a o).status = .running ∨ (mstep now d a o).status = .stalled →
+      Inv R dp (mstep now d a o).dev (mstep now d a o).act) := by
+  obtain ⟨h1, h2⟩ := mstep_sim R dp now d a o hne hinv.ranged hinv.plugs hinv.ok hinv.err
+  have hf := mstep_frame now d a o
+  exact ⟨h1, fun h => ⟨by rw [hf.2.2.2.1]; exact hinv.ranged, by rw [hf.1]; exact hinv.plugs, (h2 h).1, (h2 h).2⟩⟩
+
+/-- **Runs.**  Any number of micro-steps from a well-formed configuration — any script (blocks non-empty, nested at most
+    64 deep), plug list, argument list, device input, oracle answers, time, any point at which earlier passes left the
+    action — is a run of at most as many steps of the loop-free reference on the program the stack denotes: same device
+    state, same oracle consumption, same output records in the same order, same outcome; and where it stops without
+    failing, the stack again denotes what the reference has left, and is well-formed. -/
+theorem C08_refines_run (R : Bool) (dp : List Plug) (now : Time) (n : Nat) (d : Dev) (a : Action) (o : Oracle)
+    (acc : List Out) (hinv : Inv R dp d a) :
+    ∃ k, k ≤ n ∧ RunSim R dp (mrun now n d a o acc) (frun now k d (info a) o (abs R dp a.exec) acc) :=
+  refines_run R dp now n d a o acc hinv
+
+/-- **A pass of `_process_action` is such a run.**  For the action at the head of the queue in the running situation
+    (`HeadOK`: pass not aborted, device connected, action stamped and within its time-out, `wake` clear, configuration
+    well-formed) the mirror `processActionF` computes exactly what `headResult` makes of a run `mrun` of micro-steps:
+    stalled — the action goes back to the head of the queue and the time-out is updated; failed — `failAll`;
+    daemon assertion — the pass is aborted; completed — the action is dequeued, reported, and the loop goes on with the
+    queue behind it. -/
+theorem C08_pass_is_run (R : Bool) (dp : List Plug) (fuel : Nat) (c : CS) (a : Action) (rest : List Action) (o : Oracle)
+    (out : List Out) (tmo : Option Time) (h : HeadOK R dp c a) (hacts : c.dev.acts = a :: rest) :
+    ∃ N fuel', processActionF fuel c o out tmo =
+      headResult rest c tmo (timeLeft c a) fuel' (mrun c.env.now N c.dev a o out) :=
+  pass_is_run R dp fuel c a rest o out tmo h hacts
+
+/- Full statement of the refinement (what one would like): as `C08_refines_partial` below for EVERY script, i.e. with
+   `Inv` replaced by an invariant that does not bound the nesting depth and does not ask for non-empty blocks.
+   That statement is false of the mirror: `C08_refines_counterexample`.  Extra hypotheses in what is proved, all inside
+   `Inv R dp c.dev a0` (= `StackOK`):
+   * `goodBlock`: every block of every context has non-empty nested blocks — the grammar of device files
+     (`stmt_block : '{' stmt_list '}'` with `stmt_list` non-empty) guarantees it; with an empty block the C code
+     dereferences `e->cur == NULL` and the mirror reports `abortAssert "cur == NULL"` —
+     and is nested at most 64 deep: the mirror's `innerLoop … 64` follows at most 64 pushes in a row (the C loop
+     `do … while (e != list_peek(act->exec))` has no bound);
+   * the flags of the contexts are consistent (`CtxOK`, `ParentOK`) and `errnum = success`: true of every fresh action
+     (`C08_initial`), kept by every step (`C08_micro_step`), restored by `_rewind_action` (`C08_rewind`). -/
+
+/-- **C08, refinement (partial: nesting depth ≤ 64, non-empty blocks).**  One pass of `_process_action` over a queue
+    whose head `a0` is to be run — pass not aborted, device connected, action within its time-out — and is well-formed:
+    the mirror's result is what `headResult` makes of a run of the *loop-free reference* on the flat program the
+    action's stack denotes: same device state, same oracle consumption, same output records (bytes sent, telemetry,
+    diagnostics) in the same order, same outcome; `a'` is the action as it goes back into the queue: its fields are the
+    reference's, and unless it failed its stack denotes what the reference has left of the program and is well-formed,
+    so that the next pass is again covered.  All statement kinds, any nesting up to 64, any plug list, argument list,
+    device input, oracle answers and time. -/
+theorem C08_refines_partial (R : Bool) (dp : List Plug) (fuel : Nat) (c : CS) (a0 : Action) (rest : List Action)
+    (o : Oracle) (out : List Out) (tmo : Option Time)
+    (hnab : c.aborted = false) (hacts : c.dev.acts = a0 :: rest) (hconn : c.dev.conn = 2)
+    (hin : c.env.now < (stamp c.env.now a0).timeStamp.getD c.env.now + c.dev.timeout)
+    (hinv : Inv R dp c.dev a0) (hne : a0.exec ≠ []) :
+    ∃ k fuel' a',
+      let fr := frun c.env.now k { c.dev with wake := none } (info a0) o (abs R dp a0.exec) out
+      processActionF (fuel + 1) c o out tmo =
+        headResult rest c tmo (timeLeft c (stamp c.env.now a0)) fuel' (asMR fr a') ∧
+      fr.info = info a' ∧ a'.com = a0.com ∧
+      (fr.status = .stalled ∨ fr.status = .done ∨ fr.status = .running →
+        fr.f = abs R dp a'.exec ∧ Inv R dp fr.dev a') :=
+  pass_refines R dp fuel c a0 rest o out tmo hnab hacts hconn hin hinv hne
+
+/-- the hypotheses hold for a fresh action on a script that uses every statement kind, in a queue of a connected device -/
+example : ∃ k fuel' a',
+    let fr := frun 5 k { (exCS exScript).dev with wake := none } (info (exAction exScript none)) ⟨[]⟩
+                (abs false (exCS exScript).dev.plugs (exAction exScript none).exec) []
+    processActionF 100 (exCS exScript) ⟨[]⟩ [] none =
+      headResult [] (exCS exScript) none (timeLeft (exCS exScript) (stamp 5 (exAction exScript none))) fuel' (asMR fr a') ∧
+    fr.info = info a' ∧ a'.com = 1 ∧
+    (fr.status = .stalled ∨ fr.status = .done ∨ fr.status = .running →
+      fr.f = abs false (exCS exScript).dev.plugs a'.exec ∧ Inv false (exCS exScript).dev.plugs fr.dev a') :=
+  C08_refines_partial false (exCS exScript).dev.plugs 99 (exCS exScript) (exAction exScript none) [] ⟨[]⟩ [] none
+    rfl rfl rfl (by decide) (exInv exScript exScript_good []) (by decide)
+
+/-- **A fresh action is well-formed** and denotes the unrolling of its whole script (non-empty blocks, depth ≤ 64). -/
+theorem C08_initial (R : Bool) (dp : List Plug) (script : List Stmt) (plugs : Option (List Plug))
+    (hne : script ≠ []) (hnb : goodBlock script = true) :
+    StackOK R [bodyCtx script plugs] ∧ abs R dp [bodyCtx script plugs] = ⟨unroll R dp script plugs, false⟩ :=
+  initial_ok R dp script plugs hne hnb
+
+/-- **`_rewind_action` restores well-formedness** (after the repair of F5): the pre-empted action is again a fresh
+    action on its outer block and denotes the unrolling of the whole script. -/
+theorem C08_rewind (R : Bool) (dp : List Plug) (a : Action) (h : StackOK R a.exec) (hne : a.exec ≠ []) :
+    ∃ outer, a.exec.getLast? = some outer ∧ StackOK R (rewind a).exec ∧
+      abs R dp (rewind a).exec = ⟨unroll R dp outer.block outer.plugs, false⟩ ∧
+      (rewind a).errnum = a.errnum ∧ (rewind a).com = a.com :=
+  rewind_ok R dp a h hne
+
+/-- **Counterexample to the unrestricted statement** (a limit of the mirror, not of `device.c`): for the script
+    `send "x"; send "y"` wrapped in 65 nested `foreachplug`, on a device with one mapped plug, one pass of the mirror
+    sends `y` and never `x` — its inner loop stops after 64 pushes and the following `advance` steps over the first
+    statement of the innermost body — whereas the reference (and the C loop, which has no bound) sends `x` first.
+    With 64 levels the mirror sends `x`. -/
+theorem C08_refines_counterexample :
+    sents (processActionF 200 (exCS (exNest 65)) ⟨[]⟩ [] none).2.2.1 = [[121]] ∧
+    sents (frun 5 200 (exDev (exNest 65) []) (info (exAction (exNest 65) none)) ⟨[]⟩
+      (abs false (exDev (exNest 65) []).plugs [bodyCtx (exNest 65) none]) []).out = [[120]] ∧
+    sents (processActionF 200 (exCS (exNest 64)) ⟨[]⟩ [] none).2.2.1 = [[120]] :=
+  ⟨depth65_mirror, depth65_reference, depth64_mirror⟩
+
+/-! ## C  what is sent is the script -/
+
+/-- **C08, sends.**  `Completes R dp a ss`: the action `a` runs, pass after pass, without being pre-empted, to its
+    successful completion, each pass being a run of micro-steps on whatever device state, oracle and time that pass
+    finds, and `ss` are the payloads of the `Out.sent` records of all passes, in order.  For a fresh action on `script`
+    they form a path through the unrolled script (`Path`): every send text of the flat program in program order —
+    `foreach` bodies once per plug in plug order — with every guarded block either run in full or not at all, and no
+    other text. -/
+theorem C08_sends_are_script (R : Bool) (dp : List Plug) (a : Action) (script : List Stmt) (plugs : Option (List Plug))
+    (ss : List Bytes) (hfresh : a.exec = [bodyCtx script plugs]) (h : Completes R dp a ss) :
+    Path (unroll R dp script plugs) ss :=
+  sends_are_script R dp a script plugs ss hfresh h
+
+/-- … and for a script without `ifon`/`ifoff` (at any depth) they are exactly the send texts of the unrolled script,
+    in program order; the bytes sent are their concatenation -/
+theorem C08_sends_are_script_noif (R : Bool) (dp : List Plug) (a : Action) (script : List Stmt) (plugs : Option (List Plug))
+    (ss : List Bytes) (hfresh : a.exec = [bodyCtx script plugs]) (h : Completes R dp a ss)
+    (hno : noIfB script = true) :
+    ss = sendTexts (unroll R dp script plugs) ∧ ss.flatten = (sendTexts (unroll R dp script plugs)).flatten :=
+  sends_are_script_noif R dp a script plugs ss hfresh h (guardFree_unroll R dp script plugs hno)
+
+/-- the passes of `Completes` are what `_process_action` does: see `C08_pass_is_run`; the output a pass adds to what
+    was there before is the output of the run started with an empty list -/
+theorem C08_run_output (now : Time) (n : Nat) (d : Dev) (a : Action) (o : Oracle) (acc : List Out) :
+    mrun now n d a o acc = { mrun now n d a o [] with out := acc ++ (mrun now n d a o []).out } :=
+  mrun_acc now n d a o acc
+
+/-- non-vacuity: the script `send "x"` completes in two passes (the second after the buffer has drained) and has then
+    sent exactly `x` — which is what the theorem says it must be -/
+example : Completes false (exDev [.send [120]] []).plugs (exAction [.send [120]] none) [[120]] ∧
+    sendTexts (unroll false (exDev [.send [120]] []).plugs [.send [120]] none) = [[120]] :=
+  ⟨exCompletes, by decide +kernel⟩
 
 end Pm.Props.C08
